@@ -230,6 +230,7 @@ class Sim:
         self.psi_init_hook = None
         self.seed_solution = None
         self.options_from = None
+        self.options_as_is = None
         self.keep_output = False
         self.stub_state = {}
 
@@ -736,7 +737,12 @@ class Sim:
             if out.get("absolute", True):
                 out_file = os.path.join(self.workdir, out_file)
         late = scn.get("options_late")
-        if self.options_from is not None:
+        if self.options_as_is is not None:
+            # the caller continues with the options object an earlier run's file gave back, untouched
+            # apart from the output destination
+            options = self.options_as_is
+            options.output_file = out_file
+        elif self.options_from is not None:
             # the caller re-uses (and mutates in place) the options instance of an earlier run
             options = self.options_from
             fresh = B.build_options(scn["options"], out_file)
@@ -879,11 +885,12 @@ def classify_discard(h):
     return None
 
 
-def run_scenario(scn, checkers=(), trace=None, root=None, mesh_from=None, psi_init_hook=None, seed_solution=None, options_from=None):
+def run_scenario(scn, checkers=(), trace=None, root=None, mesh_from=None, psi_init_hook=None, seed_solution=None, options_from=None, options_as_is=None):
     sim = Sim(scn, checkers=checkers, trace=trace, root=root, mesh_from=mesh_from)
     sim.psi_init_hook = psi_init_hook
     sim.seed_solution = seed_solution
     sim.options_from = options_from
+    sim.options_as_is = options_as_is
     h = sim.run()
     why = classify_discard(h)
     if why is not None:
